@@ -71,6 +71,7 @@ package analysis
 
 //@ func EnumMember.int64
 //@   props C10
+//@   requires em.Const != nil
 //@   ensures result1 == ival(em) && result2 == isI64(em)
 
 // integer-backedness depends only on the (immutable) named type of the enum
@@ -105,6 +106,7 @@ package analysis
 //@ func (*Enum).setIsIota
 //@   props C10
 //@   requires e != nil && !e.IsIota
+//@   requires forall i int :: 0 <= i && i < len(e.Members) ==> e.Members[i].Const != nil
 //@   modifies e.IsIota, contents(e.Members)
 //@   ghostset iotaChecked e
 //@   -- nothing lost, nothing invented
@@ -144,7 +146,7 @@ package analysis
 
 //@ func fetchPkgEnums
 //@   props C10
-//@   requires pa != nil
+//@   requires pa != nil && pa.Types != nil
 //@   -- a named type is an enum exactly when the package declares a typed constant of it that is not opted out
 //@   ensures forall N *types.Named :: has(result, N) <==> (exists i int :: 0 <= i && i < len(pa.Types.Scope().Names()) && enumConst(pa, pa.Types.Scope().Names()[i], N))
 //@   ensures forall N *types.Named :: has(result, N) ==> result[N] != nil && result[N].name == N
@@ -159,6 +161,7 @@ package analysis
 //@   loop scope.Names().1 invariant forall N1, N2 *types.Named :: has(out, N1) && has(out, N2) && N1 != N2 ==> out[N1] != out[N2] && ref(out[N1].Members) != ref(out[N2].Members)
 //@   loop scope.Names().1 invariant forall N *types.Named, i int :: 0 <= i && i < n && enumConst(pa, scope.Names()[i], N) ==> (exists k int :: 0 <= k && k < len(out[N].Members) && isMemberOf(pa, scope.Names()[i], out[N].Members[k]))
 //@   loop scope.Names().1 invariant forall N *types.Named, k int :: has(out, N) && 0 <= k && k < len(out[N].Members) ==> (exists i int :: 0 <= i && i < n && enumConst(pa, scope.Names()[i], N) && isMemberOf(pa, scope.Names()[i], out[N].Members[k]))
+//@   loop scope.Names().1 invariant forall N *types.Named, k int :: has(out, N) && 0 <= k && k < len(out[N].Members) ==> out[N].Members[k].Const != nil
 //@   loop scope.Names().1 invariant framedField(Enum, Members) && framedField(Enum, IsIota) && framedField(Enum, name) && framedElems(EnumMember)
 //@   loop out.1 visited done
 //@   loop out.1 invariant forall N *types.Named :: has(out, N) ==> out[N] != nil && out[N].name == N && !isnil(out[N].Members)
@@ -166,6 +169,7 @@ package analysis
 //@   loop out.1 invariant forall N *types.Named :: has(out, N) && !done[N] ==> !out[N].IsIota
 //@   loop out.1 invariant forall N *types.Named :: has(out, N) && done[N] ==> ghost("iotaChecked", out[N]) == 1
 //@   loop out.1 invariant forall N1, N2 *types.Named :: has(out, N1) && has(out, N2) && N1 != N2 ==> out[N1] != out[N2] && ref(out[N1].Members) != ref(out[N2].Members)
+//@   loop out.1 invariant forall N *types.Named, k int :: has(out, N) && 0 <= k && k < len(out[N].Members) ==> out[N].Members[k].Const != nil
 //@   loop out.1 invariant framedField(Enum, Members) && framedField(Enum, IsIota) && framedElems(EnumMember) && framedGhost("iotaChecked")
 
 // ---------------------------------------------------------------- C11 / C07
